@@ -295,6 +295,9 @@ fn main() {
             rep.merge(run_prop(&skv_verif::engine_fault::c15(0, false), cases_for(tier, 20, 600), seed, 1, &findings));
             rep.merge(run_prop(&skv_verif::engine_fault::c15(9, true), cases_for(tier, 32, 800), seed, 2, &findings));
             rep.merge(run_prop(&sched, cases_for(tier, 2000, 40000), seed, 3, &findings));
+            // no fault either: transactions right at the size limit of a memtable (refused before logging, or applied)
+            let boundary = skv_verif::engine_boundary::c15_boundary();
+            rep.merge(run_prop(&boundary, cases_for(tier, 600, 12000), seed, 4, &findings));
             {
                 // no fault at all: real writer threads against the store's own background tasks; a commit must not
                 // fail (other than by conflict / shutdown)
@@ -307,7 +310,7 @@ fn main() {
                     None => std::env::remove_var("VERIF_JOBS"),
                 }
             }
-            let rule = format!("{} || SECOND STREAM: {} || THIRD STREAM (no fault injected): real writer threads, tiny memtables, automatic background mode; no commit may fail except by conflict or shutdown.", main.rule, sched.rule);
+            let rule = format!("{} || SECOND STREAM: {} || THIRD STREAM (no fault injected): real writer threads, tiny memtables, automatic background mode; no commit may fail except by conflict or shutdown. || FOURTH STREAM: {}", main.rule, sched.rule, boundary.rule);
             finish(main.id, main.level, tier, seed, &rule, &main.assumptions, &rep, t0.elapsed().as_secs_f64(), &findings)
         }
         "C04" => {
